@@ -6,6 +6,7 @@ MENUS = {
     'quick': [
         ('badtypes', ['tA', 'tB', 'tM', 'tA2', 'tA2_dup', 'tA2_dup2', 'tA1', 'tA_dupsym', 'ka', 'm_ka_ka'], 5),
         ('badsym', ['tA', 'tB', 'tA2', 'tAB', 'tA2_symdup', 'tAB_symdup', 'ka', 'm_ka_ka', 'm_ka_b', 'm_b_ka'], 6),
+        ('baddef', ['tA', 'ka', 'tBadDef', 'tBd_later', 'tB', 'cb', 'd_ka_ka', 'm_b_bi', 'tBi'], 6),
         ('badunits', ['tA', 'tB', 'tAB', 'ka', 'a_dup', 'ka_dupB', 'empty', 'nonstr', 'xb_wrongtype', 'bad_dim',
                       'arity', 'wrongorder', 'onbase', 'kab', 'bad_cancel'], 5),
         ('badnoref', ['tA', 'tM', 'tMpA', 'tMpA_dup', 'p', 'p_dup', 'ppa', 'ppka', 'q'], 6),
